@@ -47,10 +47,13 @@ typedef struct rec_s {
     uint32_t bodyhash[2][64]; long bodylen[2][64];
     char cborder[64][256]; int cbolen[64];
     long ncb, maxcb;
-    int stall, fault_reported;
+    int stall, fault_reported, nolive;
 } rec_t;
 
 static __thread rec_t *R;
+static htp_cfg_t *g_shared_cfg;                 /* C19: parsers created from one configuration */
+static void (*g_gate)(rec_t *r);                /* C19: called before every API call (schedule / thread start) */
+static void (*g_gate_done)(rec_t *r);           /* C19: called after every API call */
 
 static const char *HOOKS[] = {"request_start", "request_line", "request_uri_normalize", "request_header_data", "request_headers",
     "request_body_data", "request_file_data", "request_trailer_data", "request_trailer", "request_complete",
@@ -401,6 +404,25 @@ static size_t unhex(const char *s, unsigned char **out) {
     return n;
 }
 
+static unsigned cfg_digest(const htp_cfg_t *cfg) {
+    /* bytes of the configuration structure plus the callback lists it points to */
+    unsigned h = 2166136261u;
+    const unsigned char *p = (const unsigned char *) cfg;
+    for (size_t i = 0; i < sizeof(htp_cfg_t); i++) h = (h ^ p[i]) * 16777619u;
+    htp_hook_t *hooks[] = {cfg->hook_request_start, cfg->hook_request_line, cfg->hook_request_headers, cfg->hook_request_body_data, cfg->hook_request_complete,
+                           cfg->hook_response_start, cfg->hook_response_line, cfg->hook_response_headers, cfg->hook_response_body_data, cfg->hook_response_complete,
+                           cfg->hook_transaction_complete, cfg->hook_log, cfg->hook_request_trailer, cfg->hook_response_trailer};
+    for (size_t k = 0; k < sizeof hooks / sizeof *hooks; k++) {
+        if (hooks[k] == NULL) continue;
+        for (size_t i = 0, n = htp_list_size(hooks[k]->callbacks); i < n; i++) {
+            htp_callback_t *cb = htp_list_get(hooks[k]->callbacks, i);
+            const unsigned char *q = (const unsigned char *) &cb->fn;
+            for (size_t j = 0; j < sizeof cb->fn; j++) h = (h ^ q[j]) * 16777619u;
+        }
+    }
+    return h & 0x7fffffff;
+}
+
 static void emit_ret(rec_t *r, int d, const char *rcname, long consumed) {
     htp_connp_t *g = r->connp;
     /* what a careful caller reads after every call: the last error record and the connection's message list (C18) */
@@ -415,11 +437,12 @@ static void emit_ret(rec_t *r, int d, const char *rcname, long consumed) {
         fflush(r->out);
     }
     fprintf(r->out, "{\"e\":\"Ret\",\"d\":\"%s\",\"rc\":\"%s\",\"consumed\":%ld,\"ist\":\"%s\",\"ost\":\"%s\",\"ntx\":%zu,\"onti\":%zu,\"in_tx\":%ld,\"out_tx\":%ld,"
-            "\"ibuf\":%zu,\"ihdr\":%zu,\"obuf\":%zu,\"ohdr\":%zu,\"inc\":%ld,\"outc\":%ld,\"live\":%ld,\"liveb\":%ld,\"allocs\":%ld}\n",
+            "\"ibuf\":%zu,\"ihdr\":%zu,\"obuf\":%zu,\"ohdr\":%zu,\"inc\":%ld,\"outc\":%ld,\"live\":%ld,\"liveb\":%ld,\"allocs\":%ld,\"cfgd\":%u}\n",
             d == 0 ? "req" : d == 1 ? "res" : "both", rcname, consumed, stn(g->in_status), stn(g->out_status),
             htp_list_size(g->conn->transactions), g->out_next_tx_index, txi(g->in_tx), txi(g->out_tx),
             g->in_buf ? g->in_buf_size : 0, g->in_header ? bstr_len(g->in_header) : 0, g->out_buf ? g->out_buf_size : 0, g->out_header ? bstr_len(g->out_header) : 0,
-            clampl(g->conn->in_data_counter), clampl(g->conn->out_data_counter), vf_live, vf_live_bytes, vf_count);
+            clampl(g->conn->in_data_counter), clampl(g->conn->out_data_counter), r->nolive ? 0 : vf_live, r->nolive ? 0 : vf_live_bytes, r->nolive ? 0 : vf_count,
+            r->cfg ? cfg_digest(r->cfg) : 0);
 }
 
 /* one API data call; returns the stream state, *cons = bytes consumed */
@@ -428,6 +451,7 @@ static int api_data(rec_t *r, int d, const unsigned char *src, size_t n, int gap
     unsigned char *p = NULL;
     if (!gap) { p = malloc(n ? n : 1); memcpy(p, src, n); }      /* exact-size copy, freed right after the call */
     fprintf(r->out, "{\"e\":\"Call\",\"d\":\"%s\",\"k\":\"%s\",\"len\":%zu,\"off\":%ld}\n", d ? "res" : "req", gap ? "gap" : "data", n, r->off[d]);
+    if (g_gate) g_gate(r);
     r->cur_p = p; r->cur_n = n; r->cur_dir = d;
     int rc = d ? htp_connp_res_data(g, NULL, p, n) : htp_connp_req_data(g, NULL, p, n);
     *cons = d ? htp_connp_res_data_consumed(g) : htp_connp_req_data_consumed(g);
@@ -435,6 +459,7 @@ static int api_data(rec_t *r, int d, const unsigned char *src, size_t n, int gap
     free(p);
     emit_ret(r, d, stn(rc), (long) *cons);
     if (r->freed) htp_connp_tx_freed(g);
+    if (g_gate_done) g_gate_done(r);
     return rc;
 }
 
@@ -470,15 +495,19 @@ static void run_scenario(rec_t *r, char **lines, int nl, const char *name, int p
     alarm((unsigned) kv(kline, "maxsec", 300));
     r->cbdata = (int) kv(kline, "cbdata", 0); r->live_every = (int) kv(kline, "livetx", 0);
     char mode[16] = "proto"; kvs(kline, "mode", mode, sizeof mode); r->raw = !strcmp(mode, "raw");
-    vf_count = 0; vf_fail_at = kv(kline, "failat", -1);
-    long live0 = vf_live;
-    fprintf(r->out, "{\"e\":\"Reset\",\"run\":\"%s\",\"p\":%d,\"cfg\":{\"autod\":%s,\"maxtx\":%ld,\"hard\":%ld,\"mode\":\"%s\",\"wf\":%s,\"ids\":%s,\"n\":%ld,\"pers\":%ld,\"failat\":%ld,\"pumpdir\":\"%s\",\"pumpstart\":%ld,\"cls\":\"",
+    char rolebuf[16] = "", fambuf[128] = "";
+    r->nolive = (int) kv(kline, "nolive", 0);
+    if (!kv(kline, "nolive", 0)) { vf_count = 0; vf_fail_at = kv(kline, "failat", -1); }     /* not touched when several parsers run at once (C19) */
+    long live0 = kv(kline, "nolive", 0) ? 0 : vf_live;
+    fprintf(r->out, "{\"e\":\"Reset\",\"run\":\"%s\",\"p\":%d,\"cfg\":{\"autod\":%s,\"maxtx\":%ld,\"hard\":%ld,\"mode\":\"%s\",\"wf\":%s,\"ids\":%s,\"n\":%ld,\"pers\":%ld,\"failat\":%ld,\"pumpdir\":\"%s\",\"pumpstart\":%ld,\"role\":\"%s\",\"idx\":%ld,\"fam\":\"%s\",\"cls\":\"",
             name, pid, kv(kline, "autod", 0) ? "true" : "false", kv(kline, "maxtx", 0), kv(kline, "hard", 18000), mode,
             kv(kline, "wf", 0) ? "true" : "false", kv(kline, "ids", 0) ? "true" : "false", kv(kline, "n", -1), kv(kline, "pers", 9), vf_fail_at,
-            kv(kline, "pumpdir", -1) == 0 ? "req" : kv(kline, "pumpdir", -1) == 1 ? "res" : "none", kv(kline, "pumpstart", 0));
+            kv(kline, "pumpdir", -1) == 0 ? "req" : kv(kline, "pumpdir", -1) == 1 ? "res" : "none", kv(kline, "pumpstart", 0),
+            kvs(kline, "role", rolebuf, sizeof rolebuf) ? rolebuf : "", kv(kline, "idx", 0), kvs(kline, "fam", fambuf, sizeof fambuf) ? fambuf : "");
     char cls[64] = ""; kvs(kline, "cls", cls, sizeof cls); fputs(cls, r->out); fputs("\"}}\n", r->out);
     fflush(r->out);       /* the Reset record survives a crash inside the scenario */
-    r->cfg = cfg_make(kline);
+    int own_cfg = g_shared_cfg == NULL || kv(kline, "owncfg", 0);
+    r->cfg = own_cfg ? cfg_make(kline) : g_shared_cfg;
     r->connp = r->cfg ? htp_connp_create(r->cfg) : NULL;
     int created = r->connp != NULL;
     if (created) htp_connp_open(r->connp, "1.1.1.1", 1000, "2.2.2.2", 80, NULL);
@@ -503,8 +532,10 @@ static void run_scenario(rec_t *r, char **lines, int nl, const char *name, int p
             if (ok) htp_tx_destroy(tx);
         } else if (l[0] == 'C') {
             fprintf(r->out, "{\"e\":\"Call\",\"d\":\"both\",\"k\":\"close\",\"len\":0,\"off\":0}\n");
+            if (g_gate) g_gate(r);
             htp_connp_close(r->connp, NULL);
             emit_ret(r, 2, "-", 0);
+            if (g_gate_done) g_gate_done(r);
             closed = 1;
         }
         if (!arrival) continue;
@@ -546,13 +577,13 @@ static void run_scenario(rec_t *r, char **lines, int nl, const char *name, int p
     if (created && r->dump) dump_final(r);
     long ntx = created ? (long) htp_list_size(r->connp->conn->transactions) : 0;
     if (created) htp_connp_destroy_all(r->connp);
-    if (r->cfg) htp_config_destroy(r->cfg);
+    if (r->cfg && own_cfg) htp_config_destroy(r->cfg);
     if (vf_fail_at > 0 && vf_count >= vf_fail_at && !r->fault_reported) fprintf(r->out, "{\"e\":\"Fault\",\"fn\":\"%s\",\"ex\":\"\",\"lsum\":0}\n", vf_fail_fn);
-    vf_fail_at = -1;
+    if (!r->nolive) vf_fail_at = -1;
     r->connp = NULL; r->cfg = NULL;
     for (int i = 0; i < 64; i++) { free(r->expq[i].p); free(r->exps[i].p); r->expq[i].p = r->exps[i].p = NULL; }
     fprintf(r->out, "{\"e\":\"End\",\"live\":%ld,\"san\":false,\"what\":\"\",\"stall\":%s,\"leftq\":%ld,\"lefts\":%ld,\"closed\":%s,\"ntx\":%ld,\"nser\":%ld,\"ncb\":%ld,\"allocs\":%ld,\"failfn\":\"%s\"}\n",
-            vf_live - live0, r->stall ? "true" : "false", leftq, lefts, closed ? "true" : "false", ntx, g_serial, r->ncb, vf_count,
+            r->nolive ? 0 : vf_live - live0, r->stall ? "true" : "false", leftq, lefts, closed ? "true" : "false", ntx, g_serial, r->ncb, r->nolive ? 0 : vf_count,
             (vf_fail_at > 0 && vf_count >= vf_fail_at) ? vf_fail_fn : "");
     fflush(r->out);
 }
